@@ -31,6 +31,9 @@ def check(repo, res, tier):
     from .common import borrow
     res.rule('C06.W5', 'adopted C14.G2: the compute and data demand a task carries are those of its own workflow node')
     borrow(repo, res, tier, c14, {'C14.G2'}, 'C06.W5')
+    from . import c16
+    res.rule('C06.W6', 'adopted C16.K2: machine speed and bandwidth are scaled to the configured timestep like every other rate')
+    borrow(repo, res, tier, c16, {'C16.K2'}, 'C06.W6')
     res.assumptions += ['demands and speeds are non-negative, so int(a/b) == floor(a/b)',
                         'SimPy: a process resumes exactly timeout units after yielding env.timeout(t)']
     # ---- W1 ----------------------------------------------------------------
